@@ -150,11 +150,18 @@ type Stall struct {
 	Prefix int    `json:"prefix"` // permille of the offered slice accepted before the stall
 	Kind   string `json:"kind"`   // none | gosched | sleep | pending
 	K      int    `json:"k"`      // Gosched count / sleep in microseconds
+	// Fault: after the stall the transport reports (prefix bytes accepted, temporary error)
+	// instead of taking the rest. Only generated together with ConcCase.Retries > 0.
+	Fault bool `json:"fault,omitempty"`
 }
 
 type ConcCase struct {
 	Writers [][]int `json:"writers"` // per writer: filler length of each of its messages, in order
 	Stalls  []Stall `json:"stalls"`  // behaviour of the i-th transport write (cyclic)
+	// Retries > 0: every writer uses WriteToWithRetry(conn, Retries); some transport writes then
+	// end with (bytes accepted, temporary error). The budget is far above what the cycle of
+	// stalls can consume (at least one entry of the cycle accepts everything).
+	Retries int `json:"retries,omitempty"`
 }
 
 func genStall(t *rapid.T) Stall {
@@ -187,6 +194,12 @@ func genConc(t *rapid.T) ConcCase {
 	for i := 0; i < ns; i++ {
 		c.Stalls = append(c.Stalls, genStall(t))
 	}
+	if rapid.IntRange(0, 2).Draw(t, "with-retries") == 0 {
+		c.Retries = 64
+		for i := 1; i < len(c.Stalls); i++ { // entry 0 always accepts everything
+			c.Stalls[i].Fault = rapid.IntRange(0, 2).Draw(t, "fault") == 0
+		}
+	}
 	return c
 }
 
@@ -210,7 +223,7 @@ func runConc(c ConcCase) *ev.Failure {
 		}
 	}
 	mc := memnet.NewConn()
-	var entered, inflight, active, stallsWithPending int32
+	var entered, inflight, active, stallsWithPending, faults int32
 	mc.WriteHook = func(b []byte, accept func([]byte)) (int, error) {
 		idx := int(atomic.AddInt32(&entered, 1)) - 1
 		var st Stall
@@ -258,6 +271,10 @@ func runConc(c ConcCase) *ev.Failure {
 		if pending {
 			atomic.AddInt32(&stallsWithPending, 1)
 		}
+		if st.Fault && c.Retries > 0 {
+			atomic.AddInt32(&faults, 1)
+			return k, &memnet.TempError{Msg: "scripted temporary write error"}
+		}
 		accept(b[k:]) // read from the caller's slice after the wait
 		return len(b), nil
 	}
@@ -290,7 +307,11 @@ func runConc(c ConcCase) *ev.Failure {
 					}()
 					atomic.AddInt32(&inflight, 1)
 					defer atomic.AddInt32(&inflight, -1)
-					r.n, r.err = m.WriteTo(conn)
+					if c.Retries > 0 {
+						r.n, r.err = m.WriteToWithRetry(conn, uint(c.Retries))
+					} else {
+						r.n, r.err = m.WriteTo(conn)
+					}
 				}()
 				results <- r
 			}
@@ -394,7 +415,7 @@ func classifyConc(c ConcCase) (bool, []string) {
 
 var concProp = ev.Register(&ev.Prop[ConcCase]{
 	ID: "C07", Name: "concurrent",
-	Rule: "1..8 goroutines each WriteTo 1..5 numbered messages (sizes below/at/above 1 KiB and 4 KiB) to one diam.Conn over a memnet.Conn whose Write accepts a prefix, stalls (none / Gosched / 50-500 us / until another writer has a write under way) and copies the rest from the caller's slice; non-trivial = >= 2 writers and >= 1 stalling transport write (the classes dyn:* count the stalls during which another writer was observed inside WriteTo)",
+	Rule: "1..8 goroutines each WriteTo 1..5 numbered messages (sizes below/at/above 1 KiB and 4 KiB) to one diam.Conn over a memnet.Conn whose Write accepts a prefix, stalls (none / Gosched / 50-500 us / until another writer has a write under way) and copies the rest from the caller's slice; 1 in 3 cases every writer uses WriteToWithRetry and some transport writes end with (prefix accepted, temporary error) instead; non-trivial = >= 2 writers and >= 1 stalling transport write (the classes dyn:* count the stalls during which another writer was observed inside WriteTo)",
 	Gen:  genConc, Run: runConc, Classify: classifyConc, Attempts: 5,
 })
 
@@ -779,3 +800,22 @@ func TestC07Faults(t *testing.T)     { faultProp.Check(t, 2400, 120000) }
 func TestC07FaultsConn(t *testing.T) { faultConnProp.Check(t, 1600, 80000) }
 func TestC07Keep(t *testing.T)       { ev.RunKeep(t, "C07") }
 func TestReplay(t *testing.T)        { ev.Replay(t) }
+
+// The minimal histories behind the finding "retry released the connection between attempts":
+// two writers with WriteToWithRetry, the first transport write accepts a prefix, waits until the
+// other writer has its write under way and reports a temporary error.
+func TestC07RetryKeepsTheConnection(t *testing.T) {
+	concProp.Enumerate(t, false, func(yield func(ConcCase) bool) {
+		for _, fill := range []int{0, 100, 1200, 5000} {
+			for _, prefix := range []int{1, 100, 500, 999} {
+				for _, writers := range [][][]int{{{fill}, {fill}}, {{fill, 8}, {fill}, {40}}} {
+					c := ConcCase{Writers: writers, Retries: 8,
+						Stalls: []Stall{{Prefix: prefix, Kind: "pending", K: 5, Fault: true}, {Prefix: 1000, Kind: "none"}, {Prefix: 1000, Kind: "none"}}}
+					if !yield(c) {
+						return
+					}
+				}
+			}
+		}
+	})
+}
